@@ -264,12 +264,24 @@ def evaluate_cases(mod, cases, ctx):
     calls = []
     idx = []
     for i, r in enumerate(recs):
-        for j, (entry, tree) in enumerate(mod.model_calls(r["case"], r["impl"])):
-            calls.append((entry, tree_norm(tree)))
+        # an observation the module cannot encode (odd types produced by changed code) must not end the whole check:
+        # it is recorded and reported as a correspondence failure of this case
+        try:
+            mc = [(entry, tree_norm(tree)) for entry, tree in mod.model_calls(r["case"], r["impl"])]
+        except Exception as e:  # noqa: BLE001
+            mc = []
+            r["encode_error"] = f"model_calls could not encode the observation: {e!r}"
+        for j, (entry, tree) in enumerate(mc):
+            calls.append((entry, tree))
             idx.append((i, "m", j))
-        chk = mod.check_calls(r["case"], r["impl"]) if hasattr(mod, "check_calls") else []
+        try:
+            chk = [(entry, tree_norm(tree)) for entry, tree in
+                   (mod.check_calls(r["case"], r["impl"]) if hasattr(mod, "check_calls") else [])]
+        except Exception as e:  # noqa: BLE001
+            chk = []
+            r["encode_error"] = f"check_calls could not encode the observation: {e!r}"
         for j, (entry, tree) in enumerate(chk):
-            calls.append((entry, tree_norm(tree)))
+            calls.append((entry, tree))
             idx.append((i, "c", j))
     outs = run_driver(calls) if calls else []
     for r in recs:
@@ -287,11 +299,15 @@ def evaluate_cases(mod, cases, ctx):
             diff = mod.compare(r["case"], r["impl"], mobs)
         except Exception as e:  # noqa: BLE001
             diff = f"compare raised {e!r}"
+        if r.get("encode_error") and not diff:
+            diff = r["encode_error"]
         r["diff"] = diff
         try:
-            bad = mod.check_verdict(r["case"], r["impl"], r["check_raw"]) if hasattr(mod, "check_verdict") else None
+            bad = (mod.check_verdict(r["case"], r["impl"], r["check_raw"])
+                   if hasattr(mod, "check_verdict") and not r.get("encode_error") else None)
         except Exception as e:  # noqa: BLE001
-            bad = f"checker decode raised {e!r}"
+            bad = None
+            r["diff"] = r["diff"] or f"check_verdict could not digest the observation: {e!r}"
         r["check_fail"] = bad
     return recs
 
